@@ -272,7 +272,10 @@ def run_case(case):
     def do_send(ca, sa, da, mode, size):
         data = [rng.randrange(256) for _ in range(size)]
         if mode == 'bam':
-            rec = W.call('send', ca.send_pgn, 0, 0xFE, 0xF0 + rng.randrange(8), 6, data)
+            if rng.random() < 0.5:
+                rec = W.call('send', ca.send_pgn, 0, 0xFE, 0xF0 + rng.randrange(8), 6, data)          # PDU2 group
+            else:
+                rec = W.call('send', ca.send_pgn, 0, 0xC0 + rng.randrange(8), 255, 6, data)           # PDU1 group to the global address
         else:
             rec = W.call('send', ca.send_pgn, 0, 0xD0 + rng.randrange(8), da, 6, data)
         sends.append(dict(t=rec['t0'], sa=sa, da=255 if mode == 'bam' else da, mode='bam' if mode == 'bam' else 'cmdt', ret=rec['ret'], exc=rec['exc'],
